@@ -4,7 +4,11 @@ Transcript replayer for property C20 (bundled random generators).
 Line protocol (written by /verif/harness/c20_harness.cpp; all numbers lower-case hex, no prefix;
 float / double results are IEEE-754 bit patterns):
 
-  cfg widen-order => leftFirst|rightFirst      order in which THIS build evaluates widen(uint32(), uint32())
+  cfg widen-order f4|i4 => leftFirst|rightFirst   which argument of widen the binary's FIRST uint32() draw
+                                               ends up in, as MEASURED by the harness on <g>::uint64().
+                                               The order is a source fact now (`Generated.Rng.f4/i4WidenFirstDrawArg`):
+                                               the driver compares the measurement with it (mismatch = divergence)
+                                               and never adopts the measured value.
   new <g> seed <s>        => w0 w1 w2 w3       g ∈ {f8,f4,i8,i4}: construct from a seed, state words
   new <g> default         => w0 w1 w2 w3       default constructor
   new <g> words a b c d   => w0 w1 w2 w3       array constructor
@@ -34,10 +38,9 @@ inductive Gen where
   | sm8 (st : BitVec 64)
   | sm4 (st : BitVec 32)
   | x8 (p : XoParams) (s : S4 64)
-  | x4 (p : XoParams) (s : S4 32)
+  | x4 (p : XoParams) (firstDrawArg : Nat) (s : S4 32)
 
 structure St where
-  order : ArgOrder := .rightFirst
   gen   : Gen := .none
 
 def hexList (l : List Nat) : String := " ".intercalate (l.map toHex)
@@ -51,12 +54,15 @@ def cmpList (what : String) (expected : List Nat) (got : List String) : Option S
 
 def words4 {w : Nat} (s : S4 w) : List Nat := [s.s0.toNat, s.s1.toNat, s.s2.toNat, s.s3.toNat]
 
-def xoParams? : String → Option (XoParams × Bool)   -- Bool: 8-byte variant
-  | "f8" => some (f8, true)
-  | "i8" => some (i8, true)
-  | "f4" => some (f4, false)
-  | "i4" => some (i4, false)
+/-- parameters, 8-byte variant?, and (4-byte variants) which `widen` argument gets the first draw -/
+def xoParams? : String → Option (XoParams × Bool × Nat)
+  | "f8" => some (f8, true, 0)
+  | "i8" => some (i8, true, 0)
+  | "f4" => some (f4, false, Hfsm.Generated.Rng.f4WidenFirstDrawArg)
+  | "i4" => some (i4, false, Hfsm.Generated.Rng.i4WidenFirstDrawArg)
   | _ => none
+
+def orderName (firstDrawArg : Nat) : String := if firstDrawArg = 0 then "leftFirst" else "rightFirst"
 
 /-- `Float32` cross-check of the arithmetic prediction. -/
 def f32ViaRuntime (x : BitVec 32) : Nat :=
@@ -91,11 +97,12 @@ def step (st : St) (line : String) : St × Option String :=
   if line.startsWith "ORACLE-FAIL" then (st, none) else
   let (lhs, rhs) := splitArrow (words line)
   match lhs with
-  | ["cfg", "widen-order"] =>
-    match rhs with
-    | ["leftFirst"]  => ({ st with order := .leftFirst }, none)
-    | ["rightFirst"] => ({ st with order := .rightFirst }, none)
-    | _ => bad st "cfg widen-order: unknown value"
+  | ["cfg", "widen-order", g] =>
+    match xoParams? g, rhs with
+    | some (_, false, fda), [measured] =>
+      if measured = orderName fda then (st, none)
+      else (st, mismatch s!"{g}::uint64() draw order (source fact vs measured on the binary)" (orderName fda) measured)
+    | _, _ => bad st "cfg widen-order: unknown generator / value"
   | ["new", g, "seed", sd] =>
     match hex? sd with
     | none => bad st "new: bad seed"
@@ -108,33 +115,33 @@ def step (st : St) (line : String) : St × Option String :=
         ({ st with gen := .sm4 c }, cmpList "new sm4" [c.toNat] rhs)
       else match xoParams? g with
         | none => bad st s!"new: unknown generator {g}"
-        | some (p, true) =>
+        | some (p, true, _) =>
           match seed64 (BitVec.ofNat 64 sd) with
           | none => bad st "model: seeding retry loop exceeded its fuel"
           | some s => ({ st with gen := .x8 p s }, cmpList "seeded state" (words4 s) rhs)
-        | some (p, false) =>
+        | some (p, false, fda) =>
           match seed32 (BitVec.ofNat 32 sd) with
           | none => bad st "model: seeding retry loop exceeded its fuel"
-          | some s => ({ st with gen := .x4 p s }, cmpList "seeded state" (words4 s) rhs)
+          | some s => ({ st with gen := .x4 p fda s }, cmpList "seeded state" (words4 s) rhs)
   | ["new", g, "default"] =>
     match xoParams? g with
     | none => bad st s!"new: unknown generator {g}"
-    | some (p, true) =>
+    | some (p, true, _) =>
       match seed64 (BitVec.ofNat 64 Hfsm.Generated.Rng.base8DefaultSeed) with
       | none => bad st "model: seeding retry loop exceeded its fuel"
       | some s => ({ st with gen := .x8 p s }, cmpList "default state" (words4 s) rhs)
-    | some (p, false) =>
+    | some (p, false, fda) =>
       match seed32 (BitVec.ofNat 32 Hfsm.Generated.Rng.base4DefaultSeed) with
       | none => bad st "model: seeding retry loop exceeded its fuel"
-      | some s => ({ st with gen := .x4 p s }, cmpList "default state" (words4 s) rhs)
+      | some s => ({ st with gen := .x4 p fda s }, cmpList "default state" (words4 s) rhs)
   | ["new", g, "words", a, b, c, d] =>
     match xoParams? g, parseHexes [a, b, c, d] with
-    | some (p, true), some [a, b, c, d] =>
+    | some (p, true, _), some [a, b, c, d] =>
       let s : S4 64 := ⟨.ofNat 64 a, .ofNat 64 b, .ofNat 64 c, .ofNat 64 d⟩
       ({ st with gen := .x8 p s }, cmpList "words state" (words4 s) rhs)
-    | some (p, false), some [a, b, c, d] =>
+    | some (p, false, fda), some [a, b, c, d] =>
       let s : S4 32 := ⟨.ofNat 32 a, .ofNat 32 b, .ofNat 32 c, .ofNat 32 d⟩
-      ({ st with gen := .x4 p s }, cmpList "words state" (words4 s) rhs)
+      ({ st with gen := .x4 p fda s }, cmpList "words state" (words4 s) rhs)
     | _, _ => bad st "new words: unparsable"
   | ["reseed", sd] =>
     match hex? sd, st.gen with
@@ -142,24 +149,24 @@ def step (st : St) (line : String) : St × Option String :=
       match seed64 (BitVec.ofNat 64 sd) with
       | none => bad st "model: seeding retry loop exceeded its fuel"
       | some s => ({ st with gen := .x8 p s }, cmpList "reseeded state" (words4 s) rhs)
-    | some sd, .x4 p _ =>
+    | some sd, .x4 p fda _ =>
       match seed32 (BitVec.ofNat 32 sd) with
       | none => bad st "model: seeding retry loop exceeded its fuel"
-      | some s => ({ st with gen := .x4 p s }, cmpList "reseeded state" (words4 s) rhs)
+      | some s => ({ st with gen := .x4 p fda s }, cmpList "reseeded state" (words4 s) rhs)
     | _, _ => bad st "reseed: no xoshiro object / bad seed"
   | ["rewords", a, b, c, d] =>
     match st.gen, parseHexes [a, b, c, d] with
     | .x8 p _, some [a, b, c, d] =>
       let s : S4 64 := ⟨.ofNat 64 a, .ofNat 64 b, .ofNat 64 c, .ofNat 64 d⟩
       ({ st with gen := .x8 p s }, cmpList "rewords state" (words4 s) rhs)
-    | .x4 p _, some [a, b, c, d] =>
+    | .x4 p fda _, some [a, b, c, d] =>
       let s : S4 32 := ⟨.ofNat 32 a, .ofNat 32 b, .ofNat 32 c, .ofNat 32 d⟩
-      ({ st with gen := .x4 p s }, cmpList "rewords state" (words4 s) rhs)
+      ({ st with gen := .x4 p fda s }, cmpList "rewords state" (words4 s) rhs)
     | _, _ => bad st "rewords: no xoshiro object / unparsable"
   | ["jump"] =>
     match st.gen with
     | .x8 p s => let s' := jump p s; ({ st with gen := .x8 p s' }, cmpList "state after jump" (words4 s') rhs)
-    | .x4 p s => let s' := jump p s; ({ st with gen := .x4 p s' }, cmpList "state after jump" (words4 s') rhs)
+    | .x4 p fda s => let s' := jump p s; ({ st with gen := .x4 p fda s' }, cmpList "state after jump" (words4 s') rhs)
     | _ => bad st "jump: no xoshiro object"
   | ["state"] =>
     match st.gen with
@@ -185,19 +192,19 @@ def step (st : St) (line : String) : St × Option String :=
         let (xs, s') := drawN (next32of64 p) k s
         ({ st with gen := .x8 p s' },
           orElse (floatCheck32 xs) (cmpList "float32() bits" (xs.map (fun x => (uniformBits32 x).toNat)) rhs))
-      | "u64", .x4 p s =>
-        let (vs, s') := drawN (next64of32 st.order p) k s
-        ({ st with gen := .x4 p s' }, cmpList "uint64()" (vs.map (·.toNat)) rhs)
-      | "u32", .x4 p s =>
+      | "u64", .x4 p fda s =>
+        let (vs, s') := drawN (next64of32 fda p) k s
+        ({ st with gen := .x4 p fda s' }, cmpList "uint64()" (vs.map (·.toNat)) rhs)
+      | "u32", .x4 p fda s =>
         let (vs, s') := drawN (next p) k s
-        ({ st with gen := .x4 p s' }, cmpList "uint32()" (vs.map (·.toNat)) rhs)
-      | "f64", .x4 p s =>
-        let (xs, s') := drawN (next64of32 st.order p) k s
-        ({ st with gen := .x4 p s' },
+        ({ st with gen := .x4 p fda s' }, cmpList "uint32()" (vs.map (·.toNat)) rhs)
+      | "f64", .x4 p fda s =>
+        let (xs, s') := drawN (next64of32 fda p) k s
+        ({ st with gen := .x4 p fda s' },
           orElse (floatCheck64 xs) (cmpList "float64() bits" (xs.map (fun x => (uniformBits64 x).toNat)) rhs))
-      | "f32", .x4 p s =>
+      | "f32", .x4 p fda s =>
         let (xs, s') := drawN (next p) k s
-        ({ st with gen := .x4 p s' },
+        ({ st with gen := .x4 p fda s' },
           orElse (floatCheck32 xs) (cmpList "float32() bits" (xs.map (fun x => (uniformBits32 x).toNat)) rhs))
       | "raw", .sm8 c =>
         let (vs, c') := drawN (fun c => let r := raw sm64 c; (r.2, r.1)) k c
